@@ -701,6 +701,176 @@ enum Act {
     Pop,
     Trim,
 }
+/// Rings of roots about a non-zero centre: lead (x - r)^n + e. Laguerre's step is exact for (x - r)^n, so from any far point it lands
+/// next to the centre r, where p', .., p^(n-1) all vanish and the next step is huge. Until 6337919 the restart for a step leaving the
+/// root disc went to the circle of radius bound/2 - far away again -, the iteration alternated between the two for all 79 iterations
+/// and all n returned values were copies of the centre (third bug hunt, 1186 of about 4000 scanned (n, r, e)).
+/// Oracle: n finite values, backward error w.r.t. the expanded (rounded) coefficients; where the ring is well conditioned (estimated
+/// displacement of a root under a perturbation of 1e-12 max|a_k| max(1,|z|)^n of p - a thousand times the noise of Horner's rule, far
+/// below the 1e-9 of the backward-error oracle - under 5% of the spacing) each root r + rho w^k is matched by exactly one returned
+/// value (refined). Rings with e of 1e-13 .. 1e-11 are clusters that f64 cannot resolve: any point next to the centre is a root to 1e-14.
+fn ring_space(ctx: &Ctx, nmax: usize) {
+    let centres: Vec<C> = vec![(1., 0.), (-1., 0.), (0., 1.), (1., 1.), (0.5, 0.), (0.7, 0.), (2., 0.), (-0.3, 0.55), (0., -2.), (3., -1.)];
+    let es: Vec<C> = vec![(1e-13, 0.), (2e-11, 0.), (5e-9, 0.), (1e-6, 0.), (2e-5, 0.), (1e-4, 0.), (2e-4, 0.), (1e-3, 0.), (5e-2, 0.), (1e-1, 0.), (-1e-4, 0.), (0., 2e-4), (1., 0.)];
+    let ld: Vec<C> = vec![(1., 0.), (-2., 0.), (0., 3.)];
+    let mut cases = vec![];
+    for n in 4..=nmax {
+        for ci in 0..centres.len() {
+            for ei in 0..es.len() {
+                for li in 0..ld.len() {
+                    cases.push((n, ci, ei, li));
+                }
+            }
+        }
+    }
+    ctx.lattice(
+        &format!("rings about a non-zero centre lead (x - r)^n + e: n in 4..{}, 10 centres, 13 offsets e from 1e-13 to 1, 3 leads x refine", nmax),
+        cases.len() as u64 * 2,
+        |idx| format!("{:?} refine={}", cases[(idx / 2) as usize], idx % 2 == 1),
+        |idx, acc| {
+            let (n, ci, ei, li) = cases[(idx / 2) as usize];
+            let refine = idx % 2 == 1;
+            let (r, e, lead) = (centres[ci], es[ei], ld[li]);
+            let mut c = expand(lead, &vec![r; n]);
+            c[0] = cadd(c[0], e);
+            acc.nontriv("ring of roots about a non-zero centre");
+            let key = || format!("ring n={} centre={:?} e={:?} lead={:?} refine={}", n, r, e, lead, refine);
+            let mut local = Acc::new("t");
+            let res = catch(|| -> Result<(), String> {
+                let g = run_cmplx(&c, refine);
+                judge_roots(&c, &g, refine, false, &mut local, "ring")?;
+                if c.iter().all(|z| z.1 == 0.0) {
+                    let pr = Polynomial::<f64>::new(c.iter().map(|z| z.0).collect());
+                    let gr: Vec<C> = pr.roots(refine).vec.iter().map(|z| (z.real, z.imag)).collect();
+                    judge_roots(&c, &gr, refine, false, &mut local, "ring (f64 entry)")?;
+                }
+                // the ring: (x - r)^n = -e / lead
+                let q = {
+                    let d = lead.0 * lead.0 + lead.1 * lead.1;
+                    (-(e.0 * lead.0 + e.1 * lead.1) / d, -(e.1 * lead.0 - e.0 * lead.1) / d)
+                };
+                let rho = cabs(q).powf(1.0 / n as f64);
+                let th = q.1.atan2(q.0) / n as f64;
+                let spacing = 2.0 * rho * (std::f64::consts::PI / n as f64).sin();
+                let amax = c.iter().map(|a| cabs(*a)).fold(0.0, f64::max);
+                let zmax = (cabs(r) + rho).max(1.0);
+                let pert = 1e-12 * amax * zmax.powi(n as i32) / (cabs(lead) * n as f64 * rho.powi(n as i32 - 1));
+                if refine && pert <= 0.05 * spacing {
+                    local.nontriv("ring matched against the true roots");
+                    for k in 0..n {
+                        let a = th + 2.0 * std::f64::consts::PI * k as f64 / n as f64;
+                        let t = (r.0 + rho * a.cos(), r.1 + rho * a.sin());
+                        let hits = g.iter().filter(|z| cabs(csub(**z, t)) <= 0.25 * spacing).count();
+                        ensure!(hits == 1, "the simple root {:?} of the ring (spacing {:e}) is returned {} times; returned {:?}", t, spacing, hits, g);
+                    }
+                }
+                Ok(())
+            });
+            for (k, v) in std::mem::take(&mut local.hits) {
+                *acc.hits.entry(k).or_insert(0) += v;
+            }
+            acc.merge_worst(local);
+            match res {
+                Ok(Ok(())) => {}
+                Ok(Err(e)) => acc.fail(idx, key(), e),
+                Err(p) => acc.fail(idx, key(), format!("unexpected panic: {}", p)),
+            }
+        },
+    );
+}
+
+/// Cubics with a triple root whose perturbation is a tiny part (1e-131 .. 1e-320) of ONE coefficient: (x - r)^3 expanded exactly for
+/// r in {1, -2, 1+i, i/2} with a tiny real or imaginary part added to one of the four coefficients. Until e840274 the cube root in
+/// Cardano's formula went through the squared modulus (underflow -> k = 0 -> d0 / k = NaN): three NaN roots, both settings.
+fn tiny_part_cubic_space(ctx: &Ctx) {
+    let centres: Vec<C> = vec![(1., 0.), (-2., 0.), (1., 1.), (0., 0.5)];
+    let tiny: Vec<f64> = vec![1e-131, 4.242645593799271e-131, 1e-150, 1e-162, 1e-165, 1e-170, 1e-200, 1e-250, 1e-300, 1e-310, 1e-320, -1e-200];
+    ctx.lattice(
+        "cubics (x - r)^3 with a tiny part (1e-131..1e-320) added to one coefficient: 4 centres x 4 coefficients x re/im x 12 sizes x refine",
+        (centres.len() * 4 * 2 * tiny.len() * 2) as u64,
+        |idx| format!("#{}", idx),
+        |idx, acc| {
+            let refine = idx % 2 == 1;
+            let mut k = (idx / 2) as usize;
+            let ti = k % tiny.len();
+            k /= tiny.len();
+            let im = k % 2 == 1;
+            k /= 2;
+            let cj = k % 4;
+            let ci = k / 4;
+            let r = centres[ci];
+            let mut c = expand((1., 0.), &vec![r; 3]);
+            if im {
+                c[cj].1 += tiny[ti];
+            } else {
+                c[cj].0 += tiny[ti];
+            }
+            acc.nontriv("triple root with a tiny part in one coefficient");
+            let key = || format!("tiny-part cubic coeffs={:?} refine={}", c, refine);
+            let mut local = Acc::new("t");
+            let res = catch(|| -> Result<(), String> {
+                let g = run_cmplx(&c, refine);
+                judge_roots(&c, &g, refine, false, &mut local, "tiny-part cubic")?;
+                for z in &g {
+                    ensure!(cabs(csub(*z, r)) <= 1e-4 * cabs(r).max(1.0), "returned value {:?} is not next to the triple root {:?}", z, r);
+                }
+                Ok(())
+            });
+            acc.merge_worst(local);
+            match res {
+                Ok(Ok(())) => {}
+                Ok(Err(e)) => acc.fail(idx, key(), e),
+                Err(p) => acc.fail(idx, key(), format!("unexpected panic: {}", p)),
+            }
+        },
+    );
+}
+
+/// listed inputs of the third bug hunt (hunt/C10/round3): Laguerre cycles that used up the iterations and left a non-root, which was
+/// accepted, deflated with and - with refinement - polished from the same start into the same cycle. Repaired by 6337919 / 6b77f24.
+fn hunt3_cases(ctx: &Ctx) {
+    let p_int: Vec<f64> = vec![4.0, -1100.0, -76.0, 29.0, -70.0, -82.0, -280.0, -4.0, 270.0, -2.0, 160.0, -60.0, 15.0];
+    let p_dec: Vec<f64> = vec![2.0, -1000.0, -77.0, 29.0, -68.0, -84.0, -270.0, -1.5, 290.0, -2.1, 170.0, -58.0, 15.0];
+    let p_real: Vec<f64> = vec![4.996221309787883, 1.1057363746250348, 0.0, 0.0, 0.0, 0.0, 0.0, -2.492198747596697, 1.7540019226640604, -2.4775113058397698, 1.030917771032082];
+    let p_cplx: Vec<C> = vec![(0.4809867521981873, 0.8391377544488422), (0.7805861874146378, 0.6524832627751617), (0.0, 0.0), (0.0, 0.0), (0.0, 0.0), (0.0, 0.0), (-0.210830191931375, -0.7821951135183722), (-0.41370915575171874, 0.9365357446424026), (0.0, 0.0), (-0.4504660786811291, -0.809994318306869), (0.7909215375545932, 0.6112843323268623)];
+    let mut cases: Vec<(String, Box<dyn Fn() -> Result<(), String> + Sync + Send>)> = vec![];
+    let mut polys: Vec<(&'static str, Vec<C>, bool)> = vec![
+        ("degree 12, integer coefficients (real-axis hopping)", p_int.iter().map(|a| (*a, 0.0)).collect(), true),
+        ("degree 12, two-digit decimal neighbour", p_dec.iter().map(|a| (*a, 0.0)).collect(), true),
+        ("degree 10, real sparse (2-cycle between the flat region and -a0/a1)", p_real.iter().map(|a| (*a, 0.0)).collect(), true),
+        ("degree 10, complex sparse", p_cplx, false),
+    ];
+    for (name, c, real) in polys.drain(..) {
+        for refine in [false, true] {
+            let c = c.clone();
+            cases.push((
+                format!("hunt3 {} refine={}", name, refine),
+                Box::new(move || {
+                    let mut local = Acc::new("t");
+                    let g = run_cmplx(&c, refine);
+                    judge_roots(&c, &g, refine, false, &mut local, "hunt3")?;
+                    if real {
+                        let pr = Polynomial::<f64>::new(c.iter().map(|z| z.0).collect());
+                        let gr: Vec<C> = pr.roots(refine).vec.iter().map(|z| (z.real, z.imag)).collect();
+                        judge_roots(&c, &gr, refine, false, &mut local, "hunt3 (f64 entry)")?;
+                    }
+                    // the roots of all four polynomials are simple and at least 0.3 max(|r_i|,|r_j|) apart: no two returned values
+                    // may coincide (refined)
+                    if refine {
+                        for i in 0..g.len() {
+                            for j in 0..i {
+                                ensure!(cabs(csub(g[i], g[j])) >= 0.1 * cabs(g[i]).max(cabs(g[j])), "the returned values {:?} and {:?} coincide although all roots are well separated; returned {:?}", g[i], g[j], g);
+                            }
+                        }
+                    }
+                    Ok(())
+                }),
+            ));
+        }
+    }
+    ctx.listed_cases("listed inputs of the third bug hunt: Laguerre cycles that used up the iterations (repaired by 6337919 / 6b77f24)", cases);
+}
+
 fn bits_of(v: &[C]) -> Vec<(u64, u64)> {
     v.iter().map(|z| (z.0.to_bits(), z.1.to_bits())).collect()
 }
@@ -837,6 +1007,9 @@ fn main() {
         zero_constant_space(&ctx, d);
     }
     tiny_lead_space(&ctx);
+    ring_space(&ctx, ctx.pick(9, 12));
+    tiny_part_cubic_space(&ctx);
+    hunt3_cases(&ctx);
     {
         let depth = ctx.pick(3, 4);
         let mk = |m: Vec<f64>| St { p: Polynomial::new(m.iter().map(|x| Cmplx::new(*x, 0.0)).collect()), pr: Polynomial::new(m.clone()), m };
